@@ -1,6 +1,9 @@
 package main
 
-import "math/rand"
+import (
+	"fmt"
+	"math/rand"
+)
 
 // buildFamily selects the scenario families of a property check.
 func buildFamily(family, tier string, seed int64) []*Scenario {
@@ -32,7 +35,14 @@ func buildFamily(family, tier string, seed int64) []*Scenario {
 		rep(n(2, 8), func(i int) []*Scenario {
 			return g.famMatrix("a"+string(rune('a'+i)), []string{"gt", "gte", "lt", "lte"}, numeric, 12, true)
 		})
+		// the extremes of every type and the bound 0, systematically (one struct per rule x type each)
+		for i, b := range []string{"lo", "hi", "zero"} {
+			g.bound = b
+			out = append(out, g.famMatrix("ax"+string(rune('a'+i)), []string{"gt", "gte", "lt", "lte"}, numeric, 14, false)...)
+		}
+		g.bound = ""
 	case "c02":
+		out = append(out, g.corpusC07("b")...) // path-collision and deep-nesting shapes with `required`
 		rep(n(1, 3), func(i int) []*Scenario { return g.famMatrix("b"+string(rune('a'+i)), []string{"required"}, allTypes, 12, true) })
 	case "c03":
 		rep(n(3, 10), func(i int) []*Scenario {
@@ -44,6 +54,12 @@ func buildFamily(family, tier string, seed int64) []*Scenario {
 	case "c05":
 		ts := append([]*TypeX{stringT}, numeric...)
 		rep(n(2, 8), func(i int) []*Scenario { return g.famMatrix("e"+string(rune('a'+i)), []string{"enum"}, ts, 12, true) })
+		// every string item pool once (blanks inside items, duplicates, non-ASCII …)
+		for i := range enumStrPools {
+			g.pool = i + 1
+			out = append(out, g.famMatrix(fmt.Sprintf("ep%02d", i), []string{"enum"}, []*TypeX{stringT}, 4, true)...)
+		}
+		g.pool = 0
 	case "c06":
 		rep(n(2, 6), func(i int) []*Scenario {
 			return g.famMatrix("f"+string(rune('a'+i)), []string{"email", "url", "uuid", "alpha", "numeric", "ipv4", "ipv6"}, []*TypeX{stringT}, 7, true)
